@@ -2,11 +2,15 @@
 mod access_cmd;
 mod constmove;
 mod reent;
+mod rwrace;
 mod serde_cmd;
 mod tok;
 
 fn main() {
     let args: Vec<String> = std::env::args().collect();
+    if args.len() >= 2 && args[1] == "rwrace" {
+        std::process::exit(rwrace::main());
+    }
     if args.len() >= 2 && args[1] == "constmove" {
         std::process::exit(constmove::main());
     }
